@@ -94,6 +94,35 @@ static std::string counter_case(uint64_t t0, uint64_t t1, size_t more, size_t ou
 	return "";
 }
 
+// Messages longer than 4 GiB handed over in ONE call (added after seeded change agent5_C11: a 32-bit length inside blake2b_update
+// is invisible to any message streamed in smaller pieces). The message is a private zero-page mapping (no RAM) with a few
+// patterned pages; the reference is the library's own streaming interface in 1 MiB chunks (chunking independence; the streamed
+// digest of such a message is compared with the model in the thorough tier).
+static const uint64_t HUGE_N = (1ull << 32) + 4873;
+static uint8_t* huge_msg() {
+	static uint8_t* big = nullptr;
+	if (!big) { big = (uint8_t*)mmap(nullptr, HUGE_N, PROT_READ | PROT_WRITE, MAP_PRIVATE | MAP_ANONYMOUS | MAP_NORESERVE, -1, 0); if (big == MAP_FAILED) { fprintf(stderr, "c11: cannot map the 4 GiB message\n"); _exit(3); }
+		for (uint64_t i = 0; i < 300; ++i) { big[i] = (uint8_t)(i * 7 + 1); big[HUGE_N - 1 - i] = (uint8_t)(i * 11 + 3); big[(1ull << 32) - 150 + i] = (uint8_t)(i * 13 + 5); } }
+	return big;
+}
+static std::string huge_case(int mode, bool with_model) {
+	uint8_t* big = huge_msg(); uint8_t key[32]; for (int i = 0; i < 32; ++i) key[i] = (uint8_t)(0x40 + i); uint8_t h32[32]; for (int i = 0; i < 32; ++i) h32[i] = (uint8_t)(0x80 + 3 * i);
+	const size_t outlen = mode == 3 ? 32 : 64; uint8_t ref[64], got[64], mdl[64];
+	{ blake2b_state S; spec::Blake2b m; if (mode == 2) { blake2b_init_key(&S, outlen, key, 32); if (with_model) m.init(outlen, key, 32); } else { blake2b_init(&S, outlen); if (with_model) m.init(outlen); }
+	  for (uint64_t done = 0; done < HUGE_N; ) { size_t n = (size_t)std::min<uint64_t>(1 << 20, HUGE_N - done); blake2b_update(&S, big + done, n); if (with_model) m.update(big + done, n); done += n; }
+	  if (mode == 3) { blake2b_update(&S, h32, 32); if (with_model) m.update(h32, 32); }
+	  blake2b_final(&S, ref, outlen); if (with_model) { m.final(mdl); if (memcmp(ref, mdl, outlen)) return "streamed digest of a 2^32+4873 byte message differs from RFC 7693"; } }
+	const char* what = "";
+	switch (mode) {
+	case 0: what = "one-shot blake2b()"; if (blake2b(got, 64, big, HUGE_N, nullptr, 0) != 0) return "blake2b() rejected a 2^32+4873 byte message"; break;
+	case 1: { what = "update(77) + update(2^32+4796)"; blake2b_state S; blake2b_init(&S, 64); blake2b_update(&S, big, 77); blake2b_update(&S, big + 77, HUGE_N - 77); blake2b_final(&S, got, 64); break; }
+	case 2: { what = "keyed, one update of 2^32+4873 bytes"; blake2b_state S; blake2b_init_key(&S, 64, key, 32); blake2b_update(&S, big, HUGE_N); blake2b_final(&S, got, 64); break; }
+	default: what = "randomx_calculate_commitment on a 2^32+4873 byte input"; randomx_calculate_commitment(big, HUGE_N, h32, got); break;
+	}
+	if (memcmp(got, ref, outlen)) return std::string(what) + ": digest differs from the digest of the same bytes streamed in 1 MiB chunks";
+	return "";
+}
+
 int main(int argc, char** argv) {
 	vf::Args args = vf::parse_args(argc, argv, "C11");
 	const bool th = args.thorough();
@@ -106,12 +135,13 @@ int main(int argc, char** argv) {
 		if (k == "graph") d = graph((size_t)r.at("Lmax").num(), (size_t)r.at("outlen").num(), (size_t)r.at("keylen").num(), (int)r.at("pat").num(), R, nullptr);
 		else if (k == "oneshot") d = oneshot((size_t)r.at("len").num(), (size_t)r.at("outlen").num(), (size_t)r.at("keylen").num(), (int)r.at("pat").num());
 		else if (k == "reject") d = rejections();
+		else if (k == "huge1") d = huge_case((int)r.at("mode").num(), r.at("with_model").b);
 		else if (k == "counter") d = counter_case((uint64_t)r.at("t0").i, (uint64_t)r.at("t1").i, (size_t)r.at("more").num(), (size_t)r.at("outlen").num());
 		else if (k == "commit") { size_t n = (size_t)r.at("len").num(); auto in = message(n, 1); uint8_t h[32], a[32], b[32]; for (int i = 0; i < 32; ++i) h[i] = (uint8_t)(i * (int)r.at("h").num() + 1); randomx_calculate_commitment(in.data(), n, h, a); spec::commitment(in.data(), n, h, b); d = memcmp(a, b, 32) ? "commitment differs" : ""; }
 		printf("replay: %s\n", d.empty() ? "conforms" : d.c_str()); return d.empty() ? 0 : 1;
 	}
 	const int NG = (int)combos.size(), NO = 16;
-	vf::Result total = vf::run_shards(args, NG + NO + 2, [&](int shard) {
+	vf::Result total = vf::run_shards(args, NG + NO + 6, [&](int shard) {
 		vf::Result R;
 		auto viol = [&](const std::string& key, const std::string& what, const vf::Json& rp) { if (R.viol.size() < 3) { vf::Violation v; v.key = key; v.what = what; v.replay = rp; R.viol.push_back(v); } };
 		if (shard < NG) {
@@ -147,6 +177,13 @@ int main(int argc, char** argv) {
 			}
 			return R;
 		}
+		if (shard >= NG + NO + 2) {   // > 4 GiB in ONE call
+			int mode = shard - (NG + NO + 2); vf::Json rp = vf::Json::obj().set("kind", "huge1").set("mode", mode).set("with_model", th);
+			vf::set_current(rp.dump());
+			std::string d = huge_case(mode, th); R.n["huge_single_call_cases"]++; R.n["huge_bytes"] += HUGE_N * 2;
+			if (!d.empty()) viol("c11:huge1", d, rp);
+			return R;
+		}
 		// > 4 GiB message streamed in 1 MiB chunks (thorough only): real counter beyond 2^32
 		if (th) {
 			std::vector<uint8_t> chunk(1 << 20); for (size_t i = 0; i < chunk.size(); ++i) chunk[i] = (uint8_t)(i * 7 + (i >> 9));
@@ -163,7 +200,7 @@ int main(int argc, char** argv) {
 		.set("traces_validated_against_impl", (unsigned long long)total.n["transitions"])
 		.set("evaluations", (unsigned long long)(total.n["transitions"] + total.n["oneshot_cases"] + total.n["counter_cases"] + total.n["commitment_cases"]))
 		.set("distinct_nontrivial", (unsigned long long)total.n["states"]).set("exhaustive", !total.incomplete)
-		.set("rule", "streaming state machine explored on the implementation itself: states = bytes consumed (0..Lmax) per (outlen,keylen,message) combination; transitions = update of every chunk length k from every state n (n+k<=Lmax) checked against the canonical state of n+k, and final() from every state checked against the model's digest of the prefix; plus one-shot blake2b over all lengths x outlen 1..64 x key lengths {0,1,32,63,64}, parameter rejection with guarded output buffers, injected 128-bit counters around 2^32 and 2^64, commitment for all input lengths 0..300 x 4 hashes; thorough adds a real 4 GiB + 129 byte message");
+		.set("rule", "streaming state machine explored on the implementation itself: states = bytes consumed (0..Lmax) per (outlen,keylen,message) combination; transitions = update of every chunk length k from every state n (n+k<=Lmax) checked against the canonical state of n+k, and final() from every state checked against the model's digest of the prefix; plus one-shot blake2b over all lengths x outlen 1..64 x key lengths {0,1,32,63,64}, parameter rejection with guarded output buffers, injected 128-bit counters around 2^32 and 2^64, commitment for all input lengths 0..300 x 4 hashes; messages of 2^32+4873 bytes handed over in ONE call (one-shot, update after a partial block, keyed, commitment) == the same bytes streamed in 1 MiB chunks (== model in thorough); thorough adds a real 4 GiB + 129 byte streamed message");
 	ev.assumptions = { "specmodel Blake2b (RFC 7693; cross-checked against python hashlib on 1000 cases at setup)" };
 	return vf::finish(args, total, ev);
 }
